@@ -24,6 +24,7 @@ sys.path.insert(0, str(ROOT))
 
 # normal forms the corpus cannot exercise, with the reason (kept short; everything else must apply at least once)
 NOT_EXERCISED = {
+    'normalise_iteration': "kept for trees where the earlier forms do not apply; on the corpus comprehension fusion and projected loops, which run first, rewrite the same shapes",
     'strip_logging': "logging calls have no result to compare (they are removed because rules never ask about them)",
 }
 
